@@ -7,10 +7,11 @@ decimal IPv4; printf formats; <ctype.h> classes in the C locale) the oracle dema
 does not (leading zeros in an IPv4 part; what exactly "email-address formatted" means) the oracle
 judges only the clear cases and leaves the rest to the correspondence with the Lean model, whose
 reference definition (Str/Spec.lean) the theorems are about."""
-import itertools, re
+import hashlib, itertools, os, re, shutil, subprocess
+import vlib
 from vlib import Stream, hexs
 
-KINDS = ("comma", "ip4", "email", "test", "dupf", "catf", "unique", "cpyov", "ncpyov")
+KINDS = ("comma", "ip4", "email", "test", "dupf", "catf", "unique", "cpyov", "ncpyov", "dupfx", "catfx", "locale")
 FILL = 0xAA
 INT_MIN, INT_MAX = -2 ** 31, 2 ** 31 - 1
 
@@ -87,6 +88,80 @@ def fmt_of(words):
     return cstr(unhex(words[1])) + b"=" + cstr(unhex(words[2]))
 
 
+def fmt_expand(fmt, arg):
+    """printf for the format grammar of the dupfx / catfx operations: literal bytes, %%, %s"""
+    out, i = bytearray(), 0
+    while i < len(fmt):
+        if fmt[i:i + 2] == b"%%":
+            out += b"%"; i += 2
+        elif fmt[i:i + 2] == b"%s":
+            out += arg; i += 2
+        else:
+            out.append(fmt[i]); i += 1
+    return bytes(out)
+
+
+# ------------------------------------------------------------------ a single-byte national locale
+# The documented string functions are locale-independent. To notice an implementation that is not
+# (toupper()/isspace()/isalpha() instead of explicit ASCII ranges) the harness can switch LC_CTYPE
+# to a Latin-1-layout locale. None is installed here; `localedef` can compile one offline from a
+# charmap and an LC_CTYPE source that are written below (no file of /usr/share/i18n is needed).
+
+def locale_sources():
+    def U(c):
+        return "<U%04X>" % c
+
+    def R(a, b):
+        return ";".join(U(c) for c in range(a, b + 1))
+    cm = ["<code_set_name> XX-LATIN1", "<comment_char> %", "<escape_char> /", "<mb_cur_min> 1", "<mb_cur_max> 1", "CHARMAP"]
+    cm += ["%s /x%02x" % (U(c), c) for c in range(256)] + ["END CHARMAP"]
+    up = list(range(0x41, 0x5b)) + [c for c in range(0xC0, 0xDF) if c != 0xD7]
+    lo = list(range(0x61, 0x7b)) + [c for c in range(0xE0, 0xFF) if c != 0xF7]
+    J = lambda cs: ";".join(U(c) for c in cs)
+    src = ["comment_char %", "escape_char /", "LC_CTYPE",
+           "upper " + J(up),
+           "lower " + J(lo + [0xDF, 0xFF]),
+           "alpha " + J(up + lo + [0xDF, 0xFF, 0xAA, 0xBA]),
+           "digit " + R(0x30, 0x39),
+           "space " + U(0x20) + ";" + R(0x09, 0x0d) + ";" + U(0xA0) + ";" + U(0x85),
+           "blank " + U(0x20) + ";" + U(0x09) + ";" + U(0xA0),
+           "cntrl " + R(0, 0x1f) + ";" + U(0x7f) + ";" + R(0x80, 0x84) + ";" + R(0x86, 0x9f),
+           "punct " + R(0x21, 0x2f) + ";" + R(0x3a, 0x40) + ";" + R(0x5b, 0x60) + ";" + R(0x7b, 0x7e) + ";"
+           + J([c for c in list(range(0xA1, 0xC0)) + [0xD7, 0xF7] if c not in (0xAA, 0xBA)]),
+           "xdigit " + R(0x30, 0x39) + ";" + R(0x41, 0x46) + ";" + R(0x61, 0x66),
+           "toupper " + ";".join("(%s,%s)" % (U(l), U(u)) for u, l in zip(up, lo)),
+           "tolower " + ";".join("(%s,%s)" % (U(u), U(l)) for u, l in zip(up, lo)),
+           "END LC_CTYPE"]
+    return "\n".join(cm) + "\n", "\n".join(src) + "\n"
+
+
+def build_locale():
+    """compile the locale into build/locale-c19-<hash>/xx_XX; returns the directory or (None, reason)"""
+    exe = shutil.which("localedef")
+    if not exe:
+        return None, "localedef is not installed"
+    cm, src = locale_sources()
+    d = os.path.join(vlib.BUILD, "locale-c19-" + hashlib.sha256((cm + src).encode()).hexdigest()[:10])
+    if os.path.exists(os.path.join(d, "xx_XX", "LC_CTYPE")):
+        return d, ""
+    with vlib.Lock("locale-c19"):
+        if os.path.exists(os.path.join(d, "xx_XX", "LC_CTYPE")):
+            return d, ""
+        tmp = d + ".tmp"
+        shutil.rmtree(tmp, ignore_errors=True)
+        os.makedirs(tmp)
+        open(os.path.join(tmp, "charmap"), "w").write(cm)
+        open(os.path.join(tmp, "src"), "w").write(src)
+        r = subprocess.run([exe, "-c", "-f", os.path.join(tmp, "charmap"), "-i", os.path.join(tmp, "src"),
+                            os.path.join(tmp, "xx_XX")], capture_output=True, text=True)
+        if not os.path.exists(os.path.join(tmp, "xx_XX", "LC_CTYPE")):
+            shutil.rmtree(tmp, ignore_errors=True)
+            return None, "localedef failed: " + (r.stderr.strip().splitlines() or ["?"])[-1][:200]
+        shutil.rmtree(d, ignore_errors=True)
+        os.rename(tmp, d)
+    return d, ""
+
+
 def ref_allocs(n):
     """DYNAMIC_VSPRINTF: 1024, doubled until the formatted length fits with its terminator"""
     out, size = [], 1024
@@ -143,6 +218,24 @@ def judge(kind, w, f, line):
             return "qstrcatf(%r, ...) gives %r, documented %r" % (dst[:40], blk[:60], want[:60])
         if blk[len(want):] != orig[len(want):]:
             return "qstrcatf wrote behind the terminator of the result"
+    elif kind == "locale":
+        return None                     # availability is probed by the check before the stream is built
+    elif kind == "dupfx":
+        want = fmt_expand(cstr(unhex(w[1])), cstr(unhex(w[2])))
+        if f[0] != "ok" or unhex(f[1]) != want:
+            return "qstrdupf(format %r, %r) gives %s, printf gives %r (%d bytes)" % (
+                cstr(unhex(w[1]))[:40], cstr(unhex(w[2]))[:20], line[:60], want[:40], len(want))
+    elif kind == "catfx":
+        cap = int(w[1]); dst = cstr(unhex(w[2]))
+        cap = max(cap, len(unhex(w[2])) + 1)
+        add = fmt_expand(cstr(unhex(w[3])), cstr(unhex(w[4])))
+        if len(dst) + len(add) + 1 > cap:
+            return None
+        blk = unhex(f[1])
+        orig = unhex(w[2]) + b"\0" + bytes([FILL]) * (cap - len(unhex(w[2])) - 1)
+        want = dst + add + b"\0"
+        if f[0] != "ok" or blk[:len(want)] != want or blk[len(want):] != orig[len(want):]:
+            return "qstrcatf(%r, format %r, ...) gives %r, documented %r" % (dst[:20], cstr(unhex(w[3]))[:40], blk[:60], want[:60])
     elif kind in ("cpyov", "ncpyov"):
         # everything is computed from the ORIGINAL bytes of the block
         buf = unhex(w[1]); d, s, size = int(w[2]), int(w[3]), int(w[4])
@@ -319,5 +412,72 @@ def streams(chk):
         cp.append("cpyov %s %d 0 %d" % (hexs(buf + bytes(8)), k, len(buf) + 8 - k))
     sts.append(Stream("copy-overlap:cpyov", cp, note="all blocks <= 6 over {a,b,NUL} x all (dst, src, size)"))
     sts.append(Stream("copy-overlap:ncpyov", ncp))
+    # --- the FORMAT as an argument class: empty format, empty output, %%, every literal length
+    def lit(n):
+        return bytes(rng.choice(b"abcdefghijklmnopqrstuvwxyz 0123456789:=-_/.") for _ in range(n))
+    fx = ["dupfx - -", "dupfx - " + hexs(b"unused"), "dupfx %s -" % hexs(b"%s"), "dupfx %s %s" % (hexs(b"%s"), hexs(b"x")),
+          "dupfx %s -" % hexs(b"%%"), "dupfx %s -" % hexs(b"%%%%"), "dupfx %s -" % hexs(b"a%%b"),
+          "dupfx %s %s" % (hexs(b"%s%%"), hexs(b"v")), "dupfx %s %s" % (hexs(b"%%%s"), hexs(b"")),
+          "dupfx %s %s" % (hexs(b"<%s>"), hexs(b"")), "dupfx %s %s" % (hexs(b"<%s>"), hexs(b"mid"))]
+    sweep = list(range(0, 2101)) + list(range(4090, 4101)) + list(range(8190, 8195))
+    for n in sweep:
+        fx.append("dupfx %s -" % hexs(lit(n)))
+    for n in (0, 1, 1023, 1024, 1025, 2047, 2048, 2049, 4095, 4096, 4097, 8191, 8192, 8193):
+        fx.append("dupfx %s %s" % (hexs(b"%s"), hexs(lit(n))))                     # short format, long output
+        if n >= 2:
+            fx.append("dupfx %s -" % hexs(b"%%" * (n // 2) + lit(n - n // 2)))       # long format, shorter output
+            fx.append("dupfx %s %s" % (hexs(lit(n // 2) + b"%s"), hexs(lit(n - n // 2))))
+    sts.append(Stream("format:dupfx", fx, note="format lengths 0..2100, 4090..4100, 8190..8194; empty format / empty output"))
+    cx = []
+    for d in (b"", b"old"):
+        cx.append("catfx %d %s - -" % (len(d) + 1, hexs(d)))                       # empty format
+        cx.append("catfx %d %s %s -" % (len(d) + 1, hexs(d), hexs(b"%s")))          # empty output
+        cx.append("catfx %d %s %s -" % (len(d) + 2, hexs(d), hexs(b"%%")))
+        cx.append("catfx %d %s %s %s" % (len(d) + 6, hexs(d), hexs(b"<%s>"), hexs(b"mid")))
+    for n in sorted(set(list(range(0, 6)) + list(range(1020, 1030)) + list(range(2044, 2053)) + list(range(4090, 4101))
+                        + list(range(8190, 8195)))):
+        d = lit(rng.randrange(0, 9))
+        cx.append("catfx %d %s %s -" % (len(d) + n + 1, hexs(d), hexs(lit(n))))
+        cx.append("catfx %d %s %s %s" % (len(d) + n + 1 + 3, hexs(d), hexs(b"%s"), hexs(lit(n))))
+    sts.append(Stream("format:catfx", cx))
+
+    # --- the same expected results under a single-byte national locale
+    locdir, why = build_locale()
+    if locdir is not None:
+        probe, rc, _ = vlib.run_proc([chk.hbin], "locale on %s\nupper e9\nlocale off\n" % hexs(locdir.encode()))
+        if rc != 0 or not probe or probe[0] != "ok":
+            locdir, why = None, "the harness cannot switch to the locale built by localedef (%s)" % (probe[:1] or rc)
+    if locdir is None:
+        chk.assumptions = list(chk.assumptions) + ["C locale only: " + why]
+    else:
+        hi = [0x85, 0xA0, 0xAA, 0xB2, 0xB5, 0xC0, 0xC9, 0xD7, 0xDE, 0xDF, 0xE0, 0xE9, 0xF7, 0xFE, 0xFF]
+        lo_ = [0x20, 0x09, 0x0a, 0x0d, ord('a'), ord('Z'), ord('5'), ord('.'), ord('@'), ord('"')]
+        ops = []
+        for op in ("upper", "lower", "rev"):
+            ops += ["%s %02x" % (op, c) for c in range(1, 256)]
+            ops += ["%s %s" % (op, hexs(bytes(tpl))) for tpl in itertools.product(hi[:8] + lo_[4:6], repeat=2)]
+        for s in strings_upto(bytes([0x20, 0x09, 0xA0, 0x85, ord('a'), 0xE9]), 4):
+            for op in ("trim", "trimh", "trimt"):
+                ops.append("%s %s" % (op, hexs(s)))
+        ops += ["test digit %02x" % c for c in range(1, 256)] + ["test xdigit %02x" % c for c in range(1, 256)]
+        for c in hi:
+            for base in (b"1.2.3.4", b"10.0.0.255"):
+                for pos in range(len(base) + 1):
+                    ops.append("ip4 " + hexs(base[:pos] + bytes([c]) + base[pos:]))
+                ops.append("ip4 " + hexs(base.replace(b"1", bytes([c]), 1)))
+            for base in (b"abcd@ef.gh", b"joe@example.com"):
+                for pos in (0, 2, 4, 5, len(base)):
+                    ops.append("email " + hexs(base[:pos] + bytes([c]) + base[pos:]))
+                ops.append("email " + hexs(base.replace(b"e", bytes([c]), 1)))
+            ops.append("unchar %s %02x %02x" % (hexs(bytes([c, 0x61, c])), c, c))
+            ops.append("tok %s %s" % (hexs(bytes([0x61, c, 0x62, 0x3a, c])), hexs(bytes([c, 0x3a]))))
+            ops.append("repl %s %s %s %s %d" % (hexs(b"sn"), hexs(bytes([0x61, c, 0x61, c - 0x20 if c >= 0xE0 else c])),
+                                               hexs(bytes([c])), hexs(b"_"), 5))
+        for _ in range(300 if quick else 6000):
+            s = bytes(rng.choice(hi + lo_) for _ in range(rng.randrange(1, 24)))
+            ops.append("%s %s" % (rng.choice(["upper", "lower", "trim", "trimh", "trimt", "rev", "ip4", "email", "test digit"]), hexs(s)))
+        chk.extra_cov = dict(getattr(chk, "extra_cov", {}), locale="xx_XX (single byte, Latin-1 layout) built with localedef under build/")
+        sts.append(Stream("locale:xx_XX", ["locale on " + hexs(locdir.encode())] + ops + ["locale off"], history=True,
+                          note="same operations and same expected results with LC_CTYPE = a Latin-1-layout locale"))
     sts.append(Stream("unique", ["unique -", "unique " + hexs(b"seed"), "unique " + hexs(b"x" * 200)]))
     return sts
